@@ -52,7 +52,8 @@ Cases == {[kind |-> "key", ser |-> s, shape |-> sh, pwd |-> "none"] : s \in {"pr
          \* the ends of the private-key range: d = 1 and d = n - 2 (the largest key GenerateKey can return)
          {[kind |-> "key", ser |-> s, shape |-> sh, pwd |-> "none"] : s \in {"privhex", "pkcs8"}, sh \in {"d_one", "d_max"}} \cup
          {[kind |-> "key", ser |-> "pkcs8", shape |-> sh, pwd |-> "ascii"] : sh \in {"d_one", "d_max"}} \cup
-         {[kind |-> "sig", ser |-> "asn1sig", shape |-> sh, pwd |-> "none"] : sh \in Shapes} \cup
+         \* (top80: the most significant byte is exactly 80, the smallest value that needs the sign octet)
+         {[kind |-> "sig", ser |-> "asn1sig", shape |-> sh, pwd |-> "none"] : sh \in Shapes \cup {"top80"}} \cup
          {[kind |-> "cipher", ser |-> "asn1cipher", shape |-> sh, pwd |-> "none"] : sh \in {"plain", "lead0_1"}} \cup
          {[kind |-> "wrongpwd", ser |-> "pkcs8", shape |-> "plain", pwd |-> p] : p \in {"ascii", "utf8", "long"}} \cup
          {[kind |-> "loader", ser |-> l, shape |-> m, pwd |-> "none"] :
